@@ -351,7 +351,26 @@ def m_ljust(ex, st, args, kwargs, node):
     return [(st, VUnk("str.ljust"))]
 
 
+SPLIT_ROOT = z3.Function("splitext_root", S, S)
+SPLIT_EXT = z3.Function("splitext_ext", S, S)
+
+
+def m_splitext(ex, st, args, kwargs, node):
+    """os.path.splitext(p) -> (root, ext): ASSUMED axioms: root + ext == p; ext is empty or starts with '.', has no
+    further '.', no '/'; a dot found this way is not the leading dot of the last component (root non-empty then)."""
+    if not (args and isinstance(args[0], VStr)):
+        return ex.havoc_call(st, "os.path.splitext", args, node)
+    p = args[0].t
+    e, r = SPLIT_EXT(p), SPLIT_ROOT(p)
+    st.assume(z3.And(z3.Concat(r, e) == p,
+                     z3.Or(e == sv(""), z3.And(z3.PrefixOf(sv("."), e), z3.Length(r) > 0)),
+                     z3.Not(z3.Contains(z3.SubString(e, 1, z3.Length(e)), sv("."))),
+                     z3.Not(z3.Contains(e, sv("/")))))
+    return [(st, VTuple([VStr(r), VStr(e)]))]
+
+
 def install_string_models(reg):
+    reg.ext_models["os.path.splitext"] = m_splitext
     reg.ext_models["str.lower"] = m_lower
     reg.ext_models["str.split"] = m_split
     reg.ext_models["str.ljust"] = m_ljust
@@ -378,6 +397,23 @@ def subst_v(v: V, i, j):
     if isinstance(v, VExt):
         return VExt(v.sort, z3.substitute(v.t, (i, j)))
     raise ops.Unsupported(f"element kind {v.kind} in symbolic comprehension")
+
+
+class VSymBag(V):
+    """Elements `elem(j)` for the indices j < length with keep(j): the value of a filtered list / generator / set
+    comprehension over a symbolic sequence.  Only membership, `any` and truthiness are defined on it."""
+    kind = "symbag"
+
+    def __init__(self, length, elem, keep, is_set=False):
+        self.length, self.elem, self.keep, self.is_set = length, elem, keep, is_set
+
+    def member(self, item: V):
+        j = z3.Int(fresh_name("m"))
+        return z3.Exists([j], z3.And(j >= 0, j < self.length, self.keep(j), ops.eq_term(self.elem(j), item)))
+
+    def nonempty(self):
+        j = z3.Int(fresh_name("m"))
+        return z3.Exists([j], z3.And(j >= 0, j < self.length, self.keep(j)))
 
 
 class CLoop(LoopSpec):
@@ -438,6 +474,11 @@ class C18Executor(Executor):
         return super().str_method(st, s, name, args, kwargs, node)
 
     def contains(self, st, container, item, node):
+        if isinstance(container, VSymBag):
+            return [(st, VBool(container.member(item)))]
+        if isinstance(container, VSeq) and isinstance(item, (VStr, VInt, VBool)):
+            j = z3.Int(fresh_name("m"))
+            return [(st, VBool(z3.Exists([j], z3.And(j >= 0, j < container.length, ops.eq_term(container.elem(j), item)))))]
         if isinstance(container, VExt) and container.sort == "Json" and isinstance(item, VStr):
             # `key in obj` on a parsed JSON object (callers test isinstance(obj, dict) first; TypeError otherwise)
             st2 = self.fork_raise(st, z3.Not(J_ISDICT(container.t)), "TypeError")
@@ -506,6 +547,8 @@ class C18Executor(Executor):
         return super().mk_exc(cls, **attrs)
 
     def truth(self, st, v):
+        if isinstance(v, VSymBag):
+            return VBool(v.nonempty())
         if isinstance(v, VExt) and v.sort == "Bytes":
             return VBool(BLEN(v.t) > 0)
         if isinstance(v, VExt) and v.sort == "Json":
@@ -633,29 +676,70 @@ class C18Executor(Executor):
         return outs
 
     # -- comprehensions over symbolic sequences ------------------------------
+    def sym_comp(self, n, elt, st):
+        """Comprehension `elt for x in SEQ [if c ...]` over a symbolic sequence -> (state, seq, elem(j), keep(j)) or None.
+        The element and the conditions must evaluate without forking or raising."""
+        if len(n.generators) != 1 or not isinstance(n.generators[0].target, ast_Name):
+            return None
+        g = n.generators[0]
+        its = self.ev(g.iter, st.fork())
+        if len(its) != 1 or not isinstance(its[0][1], VSeq):
+            return None
+        its = self.ev(g.iter, st)
+        s2, seq = its[0]
+        i = z3.Int(fresh_name("ci"))
+        from pyvc.state import Frame
+        fr = Frame({}, len(s2.frames) - 1, s2.frame.fnode)
+        s2.frames.append(fr)
+        mark = len(self.sinks[-1])
+        pclen = len(s2.pc)
+        s2.bind(g.target.id, seq.elem(i))
+        keep = []
+        for cnd in g.ifs:
+            rc = self.ev(cnd, s2)
+            if len(rc) != 1 or len(self.sinks[-1]) != mark or len(rc[0][0].pc) != pclen:
+                self.unsupported(n, "forking / raising condition in comprehension over a symbolic sequence")
+            s2 = rc[0][0]
+            keep.append(self.truth(s2, rc[0][1]).t)
+        res = self.ev(elt, s2)
+        if len(res) != 1 or len(self.sinks[-1]) != mark or len(res[0][0].pc) != pclen:
+            self.unsupported(n, "forking / raising element expression in comprehension over a symbolic sequence")
+        s3, val = res[0]
+        s3.frames.pop()
+        kc = z3.And(keep) if keep else None
+        return (s3, seq, (lambda j, val=val, i=i: subst_v(val, i, j)),
+                (lambda j, kc=kc, i=i: z3.BoolVal(True) if kc is None else z3.substitute(kc, (i, j))), val.kind, bool(keep))
+
     def e_GeneratorExp(self, n, st):
-        if len(n.generators) == 1 and not n.generators[0].ifs and isinstance(n.generators[0].target, ast_Name):
-            g = n.generators[0]
-            its = self.ev(g.iter, st)
-            if len(its) == 1 and isinstance(its[0][1], VSeq):
-                s2, seq = its[0]
-                i = z3.Int(fresh_name("ci"))
-                from pyvc.state import Frame
-                fr = Frame({}, len(s2.frames) - 1, s2.frame.fnode)
-                s2.frames.append(fr)
-                mark = len(self.sinks[-1])
-                pclen = len(s2.pc)
-                s2.bind(g.target.id, seq.elem(i))
-                res = self.ev(n.elt, s2)
-                if len(res) != 1 or len(self.sinks[-1]) != mark or len(res[0][0].pc) != pclen:
-                    self.unsupported(n, "forking / raising element expression in comprehension over a symbolic sequence")
-                s3, val = res[0]
-                s3.frames.pop()
-                return [(s3, VSeq(seq.length, lambda j, val=val, i=i: subst_v(val, i, j), val.kind))]
+        r = self.sym_comp(n, n.elt, st)
+        if r is not None:
+            s3, seq, elem, keep, kind, filtered = r
+            if not filtered:
+                return [(s3, VSeq(seq.length, elem, kind))]
+            return [(s3, VSymBag(seq.length, elem, keep))]
         return super().e_GeneratorExp(n, st)
+
+    def e_ListComp(self, n, st):
+        r = self.sym_comp(n, n.elt, st)
+        if r is not None:
+            s3, seq, elem, keep, kind, filtered = r
+            if not filtered:
+                return [(s3, VSeq(seq.length, elem, kind))]
+            return [(s3, VSymBag(seq.length, elem, keep))]
+        return super().e_ListComp(n, st)
+
+    def e_SetComp(self, n, st):
+        r = self.sym_comp(n, n.elt, st)
+        if r is not None:
+            s3, seq, elem, keep, kind, filtered = r
+            return [(s3, VSymBag(seq.length, elem, keep, is_set=True))]
+        return super().e_SetComp(n, st)
 
     def b_any(self, st, args, kwargs, node):
         v = args[0]
+        if isinstance(v, VSymBag):
+            j = z3.Int(fresh_name("j"))
+            return [(st, VBool(z3.Exists([j], z3.And(j >= 0, j < v.length, v.keep(j), self.truth(st, v.elem(j)).t))))]
         if isinstance(v, VSeq):
             j = z3.Int(fresh_name("j"))
             return [(st, VBool(z3.Exists([j], z3.And(j >= 0, j < v.length, self.truth(st, v.elem(j)).t))))]
@@ -674,6 +758,7 @@ def p_seq_str(fname):
     def mk(ex, st, name):
         n = z3.Int(f"{fname}.len")
         at = z3.Function(f"{fname}.at", I, S)
+        ex.__dict__.setdefault("witness_terms", {})[fname] = {"len": n, "first": [at(0), at(1), at(2)]}
         return [(n >= 0, VSeq(n, lambda i: VStr(at(i)), "str", tag=fname))]
     return Maker(mk, desc="list[str] of any length")
 
